@@ -390,6 +390,9 @@ func Run(c *common.Ctx) error {
 		}
 	}
 	c.Sample(map[string]any{"case": cases[2], "cases": len(cases)})
+	if err := exportDuringCommit(c, c.Rng.Fork()); err != nil {
+		return err
+	}
 	if c.Thorough() {
 		if err := lockPageImport(c, c.Rng.Fork()); err != nil {
 			return err
